@@ -257,11 +257,14 @@ def main(argv=None):
         if rep.get('status') in ('ok', 'vacuous') and rep.get('evaluated') and rep.get('fails') and not (rep.get('fails_in_region') and o['meta'].get('finding') in F.ACTIVE):
             json.dump(rec, open(os.path.join(OUT, path), 'w'), indent=1)
             violations.append((path, full, ''))
-        elif full in baseline:
-            rec['note'] = 'obligation was discharged on the unchanged tree and is now refuted; counter-model did not replay (ghost/havoc values)'
+        elif full in baseline and o.get('ghost'):
+            rec['note'] = ('obligation was discharged on the unchanged tree and is now refuted; the counter-model assigns havoc-ed state that no input determines '
+                           '(%s), so there is no input to replay' % ', '.join(o['ghost']))
             json.dump(rec, open(os.path.join(OUT, path), 'w'), indent=1)
             violations.append((path, full, ' no-failing-input-found'))
         else:
+            # the counter-model is over the unit's inputs alone (or the obligation is new): the same inputs satisfy the clause on the real code,
+            # so the refutation is an imprecision of the engine's semantics, not a violation
             undecided.append((u.name, o['label'] + ' refuted by the solver but the model does not replay on the real code (engine imprecision)'))
     # an obligation that was discharged on the unchanged tree (committed baseline-obligations.txt) and is not any more,
     # with no replayable counter-model: reported as a violation of that named obligation, marked no-failing-input-found
